@@ -541,17 +541,23 @@ def _o_amount_spelling(w):
 
 def _o_feerate_units(w):
     x = w["x"]
-    want = _scaled_ref(x, 3, None)
+    want = None
+    try:
+        ref = Decimal(str(x))
+        # refused by design before any ratio is taken: a non-zero quote whose leading digit is above 10^15 sat/vB
+        # (more than MAX_MONEY for one vbyte) or below 10^-3 (finer than a millisatoshi)
+        if ref.is_finite() and not (ref and not -3 <= ref.adjusted() <= 15):
+            want = _scaled_ref(x, 3, None)
+    except Exception:  # noqa: BLE001
+        want = None
     try:
         got = FeeRate.from_sats_per_vbyte(x).sats_per_kvbyte
     except Exception as e:  # noqa: BLE001
         return (common.err_class(e) == "value" and want is None), f"from_sats_per_vbyte({x!r}) raised {type(e).__name__}, want {want}"
     if got != want:
         return False, f"from_sats_per_vbyte({x!r}) = {got}, want {want}"
-    if got >= 10**25:
-        return True, "rate beyond the default decimal precision: the way back is checked by feerate.context"
     back = FeeRate(sats_per_kvbyte=got).sats_per_vbyte
-    ok = Fraction(back) * 1000 == got and FeeRate.from_sats_per_vbyte(back).sats_per_kvbyte == got
+    ok = Fraction(back) * 1000 == got and FeeRate.from_sats_per_vbyte(back).sats_per_kvbyte == got and got < 10**19
     return ok, f"from_sats_per_vbyte({x!r}) = {got}, want {want}, back {back}"
 
 
@@ -590,7 +596,8 @@ def _o_amount_context(w):
         c.prec = prec
         try:
             b = btc_from_sats(s_)
-            back = sats_from_btc(format(Decimal(s_).scaleb(-8), "f"))
+            # the text is built from integers: nothing of the oracle's own runs under the lowered precision
+            back = sats_from_btc(f"{s_ // 10**8}.{s_ % 10**8:08d}")
         except Exception as e:  # noqa: BLE001
             return False, f"prec={prec}: s={s_} raised {type(e).__name__} ({common.err_class(e)})"
     ok = Fraction(b) == Fraction(s_, 10**8) and back == s_
@@ -770,8 +777,12 @@ def _rand_dec(rng, scale):
         return Decimal(rng.choice(["NaN", "Infinity", "-Infinity", "sNaN"]))
     sign = 1 if rng.random() < 0.08 else 0
     if r < 0.3:
-        exp = rng.choice([-scale - 2, -scale - 1, -scale, -scale + 1, -3, -1, 0, 1, 2, 7, 8, 30, -30, 400, -400])
-        coeff = rng.choice([0, 1, 10, 100, 21, 2099999997690000, 21 * 10**14, 21 * 10**14 + 1, rng.getrandbits(20)])
+        exp = rng.choice([-scale - 2, -scale - 1, -scale, -scale + 1, -3, -1, 0, 1, 2, 7, 8, 14, 15, 16, 17, 30, -30,
+                          400, -400])
+        coeff = rng.choice([0, 1, 9, 10, 99, 100, 21, 2099999997690000, 21 * 10**14, 21 * 10**14 + 1, 10**15,
+                            10**16 - 1, 10**16, 10**19 - 1, rng.getrandbits(20)])
+        if coeff == 0 and rng.random() < 0.3:
+            exp = rng.choice([999999999, -999999999, 10**6])   # zero at any exponent is zero
     elif r < 0.6:
         coeff = rng.randrange(0, 21 * 10**14 + 3)
         exp = -scale
@@ -786,7 +797,8 @@ def _rand_dec(rng, scale):
     return Decimal((sign, tuple(int(c) for c in str(coeff)), exp))
 
 
-SPELLINGS = ["0", "-0", "0.0", "1", "1.5", "0.00000001", "0.000000001", "0.123456789", "1.000000000", "21000000",
+SPELLINGS = ["9999999999999999.999", "1e16", "0.9999e16", "1e15", "10000000000000000", "1e-3", "1e-4", "0.0010",
+             "-1e20", "-0e999999999", "0",  "-0", "0.0", "1", "1.5", "0.00000001", "0.000000001", "0.123456789", "1.000000000", "21000000",
              "21000000.00000001", "20999999.99999999", "2.1e7", "2.1E+7", "2.10000001e7", "1e-8", "1e-9", "-1e-8",
              " 1.5 ", "1_0.5", "1,5", "abc", "", "NaN", "Infinity", "-Infinity", "0e-50", "0e50", "1e-400", "1e400",
              "1e-999999999", "1e999999999", "0e999999999", "٠.٥", "+1.5", ".5", "5.", "0x10", "1/2", "1e", "--1"]
@@ -822,15 +834,15 @@ def _run_amount(ctx):
                               format(d, "E") if d.is_finite() else str(d)]))
     for x in xs:
         ctx.check("amount.spelling", {"x": x})
-        if "999999999" not in x:
-            ctx.check("feerate.units", {"x": x})
+        ctx.check("feerate.units", {"x": x})
     ctx.check("feerate.bounded_time", {"x": "1e999999999"}, key="feerate.huge-exponent")
     for x in (1.5, 0.1, 1e-8, 1e-9, 2.1e7, 3, Decimal("0.5"), 10**7, float("nan"), float("inf")):
         ctx.check("amount.spelling", {"x": x})
         ctx.check("feerate.units", {"x": x})
     for bad in ("bool", "float", "str", "bytes", "list", "inf", "nan", "neg", "big"):
         ctx.check("amount.glue", {"bad": bad})
-    # exactness must not depend on the caller's decimal context (a defect found here: it does)
+    # regressions of three defects found here and since repaired in /repo (c9e1a4da, fa1e16b2, 47ff6651):
+    # exactness must not depend on the caller's decimal context, and a short quote must not cost unbounded time
     for prec in (6, 12):
         for v in (123456789, 2099999997690000, 50_000_000):
             ctx.check("amount.context", {"s": v, "prec": prec}, key="amount.decimal-context")
